@@ -18,7 +18,7 @@ var zooTypes = map[string][]zf{
 	"Query": {{"title", "", ""}, {"count", "", ""}, {"ratio", "", ""}, {"flag", "", ""}, {"size", "", ""},
 		{"keeper", "Keeper", "keeper"}, {"keepers", "Keeper", ""}, {"animals", "Animal", ""}, {"things", "Thing", ""},
 		{"grid", "Cell", ""}, {"echo", "", "echo"}, {"tags", "", ""}, {"nums", "", ""}, {"find", "Keeper", "find"}, {"boss", "Keeper", ""},
-		{"ghost", "", ""}, {"relay", "", "relay"}, {"pick", "Thing", "pick"}, {"join", "", "join"}, {"span", "", "span"}, {"chief", "Keeper", ""}, {"blob", "", "blob"}, {"tagged", "", "tagged"}, {"label", "Tag", ""}, {"labelRef", "TagRef", ""}},
+		{"ghost", "", ""}, {"relay", "", "relay"}, {"pick", "Thing", "pick"}, {"join", "", "join"}, {"span", "", "span"}, {"chief", "Keeper", ""}, {"blob", "", "blob"}, {"tagged", "", "tagged"}, {"label", "Tag", ""}, {"labelRef", "TagRef", ""}, {"vari", "", "vari"}, {"triple", "", ""}},
 	"Keeper": {{"name", "", ""}, {"age", "", ""}, {"pets", "Animal", ""}, {"friend", "Keeper", ""}, {"cells", "Cell", ""},
 		{"motto", "", "motto"}, {"rank", "", ""}, {"dogs", "Dog", ""}, {"ghost", "", ""}, {"nick", "", "nick"}, {"code", "", "code"}},
 	"Dog":      {{"name", "", ""}, {"legs", "", ""}, {"barks", "", ""}, {"owner", "Keeper", ""}, {"code", "", ""}, {"call", "", "call"}},
@@ -243,6 +243,11 @@ func (g *reqGen) argsFor(kind string) string {
 		} else {
 			parts = []string{"i: " + strconv.Itoa(g.t.Draw(12))}
 		}
+	case "vari":
+		if g.t.Bool(1, 2) {
+			return ""
+		}
+		parts = []string{"xs: [\"a\", \"b\"]"}
 	case "tagged":
 		switch g.t.Draw(3) {
 		case 0:
@@ -361,9 +366,12 @@ func (g *reqGen) fieldsOf(typ string) []zf {
 	var fs []zf
 	for _, f := range zooTypes[typ] {
 		switch f.name {
-		case "ghost":
+		case "ghost", "vari", "triple":
 			if !g.o.Ghost {
 				continue
+			}
+			if f.name != "ghost" && g.o.UniqueKeys {
+				continue // (C06 counts ghost positions only)
 			}
 		case "relay":
 			if !g.o.Relay {
